@@ -312,6 +312,12 @@ class ProgramModel:
         fs = {f.name: f for f in tree.body if isinstance(f, ast.FunctionDef)} if tree is not None else {}
         return lambda name: fs.get(name)
 
+    def classes_in_hierarchies(self):
+        """names of the classes that belong to the model / explainable / link hierarchies (everything the program model
+        indexes as a class of the package)"""
+        roots = {"ModelingObject", "ObjectLinkedToModelingObj", "ModelingUpdate"}
+        return {c for c in self.classes if roots & set(self.mro(c))}
+
     def package_function_finder(self):
         """name -> the module-level FunctionDef of that name anywhere in the package, when exactly one module defines it
         (helpers imported from a sibling module)"""
